@@ -181,6 +181,8 @@ impl System for NbSys {
                     let n = 6 + rx1.is_some() as usize + rx2.is_some() as usize;
                     for k in 0..n {
                         v.push(Ev::CycleF { confirmed: conf, port: 1, len, rx1: rx1.clone(), rx2: rx2.clone(), fault_at: k });
+                        // the second radio call of the step fails (a step may cancel one reception and start the next)
+                        v.push(Ev::CycleF2 { confirmed: conf, port: 1, len, rx1: rx1.clone(), rx2: rx2.clone(), fault_at: k });
                         // a radio outage that spans two / three consecutive radio calls (one deviation)
                         for burst in [2usize, 3] {
                             v.push(Ev::CycleFB { confirmed: conf, port: 1, len, rx1: rx1.clone(), rx2: rx2.clone(), fault_at: k, burst });
@@ -194,7 +196,7 @@ impl System for NbSys {
 
     fn step(&mut self, ev: &Ev) -> Vec<V> {
         let mut out = vec![];
-        if matches!(ev, Ev::CycleF { .. } | Ev::CycleFB { .. }) {
+        if matches!(ev, Ev::CycleF { .. } | Ev::CycleFB { .. } | Ev::CycleF2 { .. }) {
             self.faults += 1;
         }
         let micros = self.core.apply(ev);
@@ -237,7 +239,9 @@ impl System for NbSys {
     }
 
     fn key(&self) -> Self::Key {
-        (canon(self.core.snap(), &self.mon), self.faults, self.last_fault.clone())
+        // (the front-end state is part of the key: a device left in the middle of a receive procedure by a fault has
+        // other futures than an idle one with the same MAC state)
+        (canon(self.core.snap(), &self.mon), self.faults, format!("{}|{:?}", self.last_fault, self.core.st()))
     }
     fn alive(&self) -> bool {
         self.core.dead.is_none()
@@ -422,6 +426,15 @@ pub fn run(tier: Tier, replay: Option<&str>) {
             runs.push(RunCfg { front: "async".into(), class_c: true, bound, dev: d });
         }
     }
+    // boards whose receive windows stay open as long as / longer than the RX1 -> RX2 gap, and with a non-zero window offset
+    // (the window bookkeeping of the nb front-end then takes other paths)
+    for (dur, offs) in [(1000u32, 0i32), (2500, 0), (1000, 30), (100, 30)] {
+        let mut d = DevCfg::abp("EU868");
+        d.duration_ms = dur;
+        d.offset_ms = offs;
+        runs.push(RunCfg { front: "nb".into(), class_c: false, bound, dev: d.clone() });
+        runs.push(RunCfg { front: "async".into(), class_c: true, bound, dev: d });
+    }
     // sessions one uplink before each ADR back-off step (64 uplinks without a downlink: ADRACKReq; 96, 128: a
     // step down), at the lowest data rate, where nothing is left to step to, and above it
     for region in ["EU868", "US915"] {
@@ -461,7 +474,7 @@ pub fn run(tier: Tier, replay: Option<&str>) {
         ],
         "evaluations": ctx.evals(),
         "distinct_nontrivial": states,
-        "rule": "BFS over histories of whole uplink transactions (and Class C idle listening) on the real nb and async devices; every transaction is run with every receive outcome of the alphabet (nothing, RX1 hit, RX2 hit confirmed, invalid frame, MAC-only downlink on port 0 / in FOpts, accepted LinkADRReq asking for 2 / 15 transmissions per uplink, Class C downlink before RX1 / RX2) and with a radio fault at every radio call position of the transaction - a single failing call, or an outage spanning 2 / 3 consecutive radio calls (nb: the retried step fails again) or 2 calls / the rest of the public call (async) -, at most `fault_bound` such deviations per history; sessions start with fcnt_up at 0, 0xFFFE, 0xFFFF, 2^32-3, 2^32-2, 2^32-1, and (fault-free, depth 3) one uplink before each ADR back-off threshold (63, 95, 127 uplinks without a downlink) at the lowest and at a higher data rate; every frame handed to the radio is decoded by the reference codec (counter recovered by MIC verification)",
+        "rule": "BFS over histories of whole uplink transactions (and Class C idle listening) on the real nb and async devices; every transaction is run with every receive outcome of the alphabet (nothing, RX1 hit, RX2 hit confirmed, invalid frame, MAC-only downlink on port 0 / in FOpts, accepted LinkADRReq asking for 2 / 15 transmissions per uplink, Class C downlink before RX1 / RX2) and with a radio fault at every radio call position of the transaction - a single failing call (nb: the first or the second radio call of the step), or an outage spanning 2 / 3 consecutive radio calls (nb: the retried step fails again) or 2 calls / the rest of the public call (async) -, at most `fault_bound` such deviations per history; boards with receive windows of 100 / 1000 / 2500 ms and window offsets 0 / 30 ms; sessions start with fcnt_up at 0, 0xFFFE, 0xFFFF, 2^32-3, 2^32-2, 2^32-1, and (fault-free, depth 3) one uplink before each ADR back-off threshold (63, 95, 127 uplinks without a downlink) at the lowest and at a higher data rate; every frame handed to the radio is decoded by the reference codec (counter recovered by MIC verification)",
         "fault_bound_completed": bound,
         "depth": depth,
         "configurations": runs.len(),
